@@ -386,5 +386,26 @@ for i, w in [(0, "group id"), (1, "artifact id")]:
     row(props=["C19"], func="pkg/infrastructure/ast/ast_groovy.ConvertToJDep", params=["text"], kind="callarg", callee="pkg/domain/core_domain.NewCodeDependency", arg=i,
         expr='call("strings.Split", %s, ":")[%d]' % (UNQ, i), what="the %s of a Gradle notation, single- or double-quoted: the quotes are no part of it" % w)
 
+# ---- round-3 additions
+row(props=["C06"], func="pkg/application/refactor/base/models.(JFullIdentifier).AddImport", params=["identifier", "jImport"], kind="emits", target="field:p0.imports", tag={}, total=1,
+    when="true", fields={}, what="every import declaration of a file is kept as its own entry (each is one line that may have to be deleted), also a repeated one")
+CH = 'call("regexp.(Regexp).FindStringSubmatch", global("pkg/application/git.changesReg"), text)'
+row(props=["C14"], func=GIT + "ParseLog", params=["text"], kind="emits", target="mapstore:currentFileChangeMap", tag={}, total=1,
+    when='!(len(%s) == 5) && call("regexp.(Regexp).MatchString", global("pkg/application/git.changesReg"), text)' % HEAD,
+    fields={"key": CH + "[3]", "value.File": CH + "[3]", "value.Added": 'call("extract0", call("strconv.Atoi", %s[1]))' % CH, "value.Deleted": 'call("extract0", call("strconv.Atoi", %s[2]))' % CH},
+    what="a numstat line records one change under the path exactly as git prints it (the key the mode lines look it up by), with the added and deleted counts in git's column order")
+row(props=["C15"], func=GIT + "switchMapFile", params=["infos", "oldFileName", "newFileName"], kind="emits", target="mapstore:p0", tag={}, total=1,
+    when="has(infos, oldFileName)", fields={"key": "newFileName", "value.EntityName": "newFileName"},
+    what="a rename moves the file's history to the new name in the summary table the caller keeps folding into")
+GOV = "pkg/infrastructure/ast/ast_go.(CocagoParser).Visitor$1"
+TS = 'call("assert:*ast.TypeSpec", node)'
+row(props=["C20"], func=GOV, params=["node"], kind="emits", target="freestore:currentStruct.NodeName", tag={}, total=1,
+    when='call("extract1", %s)' % TS, fields={"value": 'call("extract0", %s).Name.Name' % TS},
+    what="every type declaration becomes the current type, so the struct body that follows is recorded under its own name, also when a method above it already registered the name")
+WORD = '!(ite(call("regexp.(Regexp).MatchString", call("regexp.MustCompile", "^[0-9]+$"), w), "", trimSpace(w)) == "")'
+for idx, c in [(2, "lookup(call(\"makemap1\"), w) == 0"), (3, "!(lookup(call(\"makemap1\"), w) == 0)")]:
+    row(props=["C18"], func="pkg/application/concept.SegmentCamelcase", params=["names"], kind="emits", target="mapstore:makemap1", tag={}, total=4, index=idx, each={"as": "name,w"},
+        when=WORD + " && " + c, fields={"key": "w"}, what="every non-empty word of every method name is counted under itself, and the empty string is no word")
+
 json.dump({"e5": rows}, open(os.path.join(os.path.dirname(os.path.dirname(os.path.abspath(__file__))), "spec", "e5.json"), "w"), indent=1, ensure_ascii=False)
 print(len(rows), "rows")
